@@ -1767,10 +1767,15 @@ func (t *tScreen) collectEventsFromInput(buf *bytes.Buffer, expire bool) []Event
 			partials++
 		}
 
-		if part, comp := t.parseFocus(buf, &res); comp {
-			continue
-		} else if part {
-			partials++
+		// A focus report can be a proper prefix of a key sequence (rxvt sends
+		// ESC [ O a for Ctrl-Up); while that key may still be completed by the
+		// next read, wait for it, as a single read would have decoded the key.
+		if partials == 0 || expire {
+			if part, comp := t.parseFocus(buf, &res); comp {
+				continue
+			} else if part {
+				partials++
+			}
 		}
 
 		// Only parse mouse records if this term claims to have
